@@ -122,8 +122,9 @@ def main(tier, seed):
         },
         'assumptions': PROPERTY['assumptions'], 'wall_s': round(time.time() - t0, 2), 'violations': len(viol),
     }
-    os.makedirs(os.path.join(ROOT, 'evidence'), exist_ok=True)
-    json.dump(evidence, open(os.path.join(ROOT, 'evidence', 'C20.json'), 'w'), indent=1, default=repr)
+    evdir = os.environ.get('VERIF_EVIDENCE_DIR') or os.path.join(ROOT, 'evidence')
+    os.makedirs(evdir, exist_ok=True)
+    json.dump(evidence, open(os.path.join(evdir, 'C20.json'), 'w'), indent=1, default=repr)
     print('[C20] tier=%s scenarios=%d events=%d solver_queries=%d solver_time=%.2fs wall=%.1fs twin_detected=%s'
           % (tier, len(res['results']), n_ev, n_q, st, time.time() - t0, twin_detected))
     for r in res['results']:
